@@ -19,6 +19,11 @@ import (
 
 func init() { register("C15", runC15) }
 
+// c15Loc: the reader of the next scheduled scenario builds BLOCK LOCATORS (Headers.LatestHeaderLocator: one tip read,
+// then one by-height read per entry - each a scheduled repository operation, so a reorganisation can be placed
+// between any two of them) instead of asking for the tip.
+var c15Loc bool
+
 // evCounter is a notification channel that counts ADD events per header hash.
 type evCounter struct {
 	mu sync.Mutex
@@ -257,6 +262,7 @@ func runC15(c *Ctx) error {
 		tips := []int{}
 		cas := []string{}
 		views := []string{}
+		locs := []string{}
 		var wg sync.WaitGroup
 		nthreads := len(conc)
 		for i := range conc {
@@ -275,6 +281,28 @@ func runC15(c *Ctx) error {
 				defer wg.Done()
 				sc.register(0)
 				for j := 0; j < nreads; j++ {
+					if c15Loc {
+						res, first := func() (r string, first int) {
+							defer func() {
+								if rec := recover(); rec != nil {
+									r, first = "PANIC", -3
+								}
+							}()
+							l := s.Services.Headers.LatestHeaderLocator()
+							if len(l) == 0 {
+								return "empty", -2
+							}
+							for _, hp := range l {
+								if hp == nil || m.ID(hp.String()) < 0 {
+									return "unknown-hash", m.ID(l[0].String())
+								}
+							}
+							return "ok", m.ID(l[0].String())
+						}()
+						tips = append(tips, first)
+						locs = append(locs, res)
+						continue
+					}
 					t := s.Services.Headers.GetTip()
 					if t == nil {
 						tips = append(tips, -2)
@@ -361,6 +389,10 @@ func runC15(c *Ctx) error {
 			// realised observations of the reader (part of the case like the trace; judged by the oracle only)
 			h.X = append(h.X, "views:"+strings.Join(views, "/"))
 		}
+		if c15Loc {
+			// realised results of the reader's locator builds (judged by the oracle: each must be "ok")
+			h.X = append(h.X, "locs:"+strings.Join(locs, "/"))
+		}
 		if len(caIDs) > 0 {
 			cs := make([]string, len(caIDs))
 			for i, id := range caIDs {
@@ -413,6 +445,8 @@ func runC15(c *Ctx) error {
 						prefs = append(prefs, v)
 					}
 				}
+			case strings.HasPrefix(x, "locs:"):
+				c15Loc = true
 			case strings.HasPrefix(x, "ca:"):
 				for _, t := range strings.Split(x[3:], ".") {
 					if v, err := strconv.Atoi(t); err == nil {
@@ -520,6 +554,31 @@ func runC15(c *Ctx) error {
 				}
 			}
 		}
+	}
+	// a reorganisation placed between the repository reads of ONE locator build: the reader reads the tip, the
+	// submitter gets j operations (for every j: before the demotion, between demotion and promotion, between
+	// promotion and insert, after), then the reader finishes its locator, then everybody runs on
+	{
+		st := &History{Subs: []Sub{mk(2, 1, bitsW2), mk(3, 2, bitsW2), mk(4, 1, bitsW2), mk(5, 3, bitsW2), mk(6, 5, bitsW2)}}
+		c15Loc = true
+		for k := 1; k <= 3; k++ {
+			for j := 0; j <= 12; j++ {
+				pat := []int{}
+				for x := 0; x < k; x++ {
+					pat = append(pat, 0)
+				}
+				for x := 0; x < j; x++ {
+					pat = append(pat, 1)
+				}
+				pat = append(pat, 0, 0, 0, 0, 0, 0, 0, 0, 1, 1, 1, 1, 1, 1, 1, 1, 1, 1, 1, 1)
+				// header 11 on the 4-branch with work 8 (2+8 > 8): the 2-3-5-6 branch becomes stale, the tip drops from height 4 to 2
+				if err := do(st, []Sub{mk(11, 4, bitsW8)}, 2, pat, nil, "locator-race"); err != nil {
+					c15Loc = false
+					return err
+				}
+			}
+		}
+		c15Loc = false
 	}
 	// random: 2-3 submitters on random stores, random preference lists
 	for i, n := 0, c.Pick(150, 2500); i < n; i++ {
